@@ -60,7 +60,7 @@ def adapt(run):
                 for key, v in o["buf"]:
                     bufs[0 if key == -1 else key] = list(v)
                 out.append({"ev": "ObsBuf", "buf": bufs})
-            if run["cfg"].get("timeout") and "armed" in o:
+            if run["cfg"].get("timeout") is not None and "armed" in o:
                 out.append({"ev": "ObsTimers", "armed": o["armed"]})
             out.append({"ev": "ObsRc", "rc": o["rc"]})
     for x in out:
@@ -98,7 +98,7 @@ def attribute(run, trace, idx):
 
 
 def consts_of(c):
-    return dict(NE=c["max_elems"], N=c["n"], Timeout=int(c.get("timeout") or 0), Mod=c.get("mod") or 1,
+    return dict(NE=c["max_elems"], N=c["n"], Timeout=int(c.get("timeout") or 0), Timed=c.get("timeout") is not None, Mod=c.get("mod") or 1,
                 SyncCons=c["cons"][0] == "sync", MaxTime=1000, Faults=bool(c.get("faults")))
 
 
@@ -112,10 +112,13 @@ def run(tier, seed, mutant=None, only_validate=False):
         if tier != "quick":
             combos += [(2, 1, 1), (2, 3, 2), (3, 3, 2), (3, 1, 3)]
         if not only_validate:
+            r, rec = amod.mc(res, work, "AsyncPartition", "n2_zero_timeout",
+                             dict(NE=ne, N=2, Timeout=0, Timed=True, Mod=1, SyncCons=False, MaxTime=3, Faults=False), INVS, workers=16)
+            amod.spec_violation(res, r, rec, INV_PROP, "C08", "partition")
             for (n, to, mod) in combos:
                 for sync in (False, True):
                     r, rec = amod.mc(res, work, "AsyncPartition", "n%d_t%d_m%d_sync%d" % (n, to, mod, sync),
-                                     dict(NE=ne, N=n, Timeout=to, Mod=mod, SyncCons=sync, MaxTime=2 * max(to, 1) + 2, Faults=not sync), INVS, workers=16)
+                                     dict(NE=ne, N=n, Timeout=to, Timed=to > 0, Mod=mod, SyncCons=sync, MaxTime=2 * max(to, 1) + 2, Faults=not sync), INVS, workers=16)
                     amod.spec_violation(res, r, rec, INV_PROP, "C08", "partition")
         cfgs = []
         for (n, to, mod) in combos:
@@ -123,6 +126,9 @@ def run(tier, seed, mutant=None, only_validate=False):
                 cfgs.append({"kind": "partition", "n": n, "timeout": to or None, "mod": mod if mod > 1 else None,
                              "cons": [c], "max_elems": ne})
         cfgs.append({"kind": "partition", "n": 2, "timeout": 2, "mod": None, "cons": ["future"], "max_elems": ne, "feeder": "plain"})
+        # timeout=0 (and 0.0): falsy, but a time-out like any other -- the partial partition leaves at the next loop iteration
+        cfgs += [{"kind": "partition", "n": n, "timeout": z, "mod": m, "cons": ["future"], "max_elems": ne}
+                 for (n, z, m) in ((2, 0, None), (3, 0.0, 2))]
         # the consumer's awaitable may raise (once per run)
         cfgs.append({"kind": "partition", "n": 2, "timeout": 2, "mod": None, "cons": ["future"], "max_elems": ne, "faults": True})
         cfgs.append({"kind": "partition", "n": 2, "timeout": None, "mod": 2, "cons": ["future"], "max_elems": ne, "faults": True})
